@@ -35,6 +35,10 @@ TQuiesce == /\ IsEvent("quiesce")
             /\ viol' = viol \cup (IF AllAckedStored THEN {} ELSE {V("lost", Missing)})
             /\ UNCHANGED <<submitted, acked, stored>>
 TOverwrite == IsEvent("overwrite") /\ Unstore(E.rows) /\ UNCHANGED viol
+\* the backend accepted an object that is not a readable Parquet file: none of the rows it was meant to carry is stored
+TUnreadable == /\ IsEvent("unreadable")
+               /\ viol' = viol \cup {V("stored-object-unreadable", SetOf(E.rows))}
+               /\ UNCHANGED <<submitted, acked, stored>>
 TFlushRet == /\ IsEvent("flushret")
              /\ viol' = viol \cup (IF FlushAckHonest(E.ok, SetOf(E.rows), E.what = "wal=off") THEN {}
                                    ELSE {V("flush-acknowledged-although-rows-dropped", SetOf(E.rows))})
@@ -44,7 +48,7 @@ TEnd   == /\ IsEvent("end")
           /\ submitted' = {} /\ acked' = {} /\ stored' = <<>> /\ viol' = {}
           /\ PrintT(<<"TRACE", ToJson([run |-> E.run, viol |-> viol])>>)
 
-TraceNext == TCall \/ TRet \/ TStore \/ TStoreFail \/ TQuiesce \/ TOverwrite \/ TFlushRet \/ TInfo \/ TEnd
+TraceNext == TCall \/ TRet \/ TStore \/ TStoreFail \/ TQuiesce \/ TOverwrite \/ TUnreadable \/ TFlushRet \/ TInfo \/ TEnd
 TraceSpec == TraceInit /\ [][TraceNext]_<<submitted, acked, stored, viol, l>>
 HW == TLCSet(1, IF l > TLCGet(1) THEN l ELSE TLCGet(1))
 TraceAccepted == IF TLCGet(1) = Len(Trace) + 1 THEN TRUE
